@@ -23,11 +23,12 @@ theorem insertPlain_rows (a pos : Nat) (brows : List Row) (s : St) (r : Nat) (s'
       exact ⟨oa, _, hoa, alloc_get s _, rfl, rfl, rfl, rfl⟩
 
 /-- `insert(a, pos, b, memo)` when the memo knows neither array: the new array has the rows of `a`
-with the rows of `b` spliced in at `pos` -/
+with the rows of `b` — every epoch converted to the scale and shown in the format of `a` when `b` is a time of
+another scale / format (`convRows`), unchanged otherwise — spliced in at `pos`; it keeps kind, scale and format of `a` -/
 theorem insertObj_rows (fuel a pos b : Nat) (s : St) (r : Nat) (s' : St)
     (h : insertObj (fuel + 1) a pos b s = .ok (r, s')) (ha : s.find a = none) (hb : s.find b = none) :
     ∃ oa ob orr, s.heap[a]? = some oa ∧ s.heap[b]? = some ob ∧ s'.heap[r]? = some orr ∧
-      orr.rows = insertAt oa.rows pos ob.rows ∧ orr.kind = oa.kind := by
+      orr.rows = insertAt oa.rows pos (convRows s.conv oa.tag ob) ∧ orr.kind = oa.kind ∧ orr.tag = oa.tag := by
   simp only [insertObj, ha, hb] at h
   split at h
   · rename_i oa ob hoa hob
@@ -41,10 +42,9 @@ theorem insertObj_rows (fuel a pos b : Nat) (s : St) (r : Nat) (s' : St)
         · rename_i rp s2 _
           simp only [Except.ok.injEq, Prod.mk.injEq] at h
           obtain ⟨rfl, rfl⟩ := h
-          let new : Obj := { oa with rows := insertAt oa.rows pos ob.rows, other := oth, refPos := rp }
-          refine ⟨oa, ob, new, hoa, hob, ?_, rfl, rfl⟩
-          simp only [St.set]
-          exact alloc_get s2 new
+          let new : Obj := { oa with rows := insertAt oa.rows pos (convRows s.conv oa.tag ob), other := oth, refPos := rp }
+          refine ⟨oa, ob, new, hoa, hob, ?_, rfl, rfl, rfl⟩
+          split <;> (simp only [St.set]; exact alloc_get s2 new)
   · simp at h
 
 /-- appended rows of a rectangular field: `insertAt rows rows.length b = rows ++ b` (`extend appends`) and
